@@ -199,6 +199,21 @@ class KeyedList(Generic[ItemType, KeyType], MutableSequence, KeyedBase):  # pyli
         # `__setitem__`, which (rightly) rejects the transient duplicate key.
         self._list.reverse()
 
+    def extend(self, values):
+        # Validate every incoming item (type, key, uniqueness) before adding
+        # any of them, so that a rejected item does not leave its predecessors
+        # behind. Also backs `+=`.
+        staged = {}
+        for value in list(values):
+            item, key = self._validate_item(value)
+            if key in self._dict or key in staged:
+                raise ValueError(
+                    f"Item with key `{repr(key)}` already in `{type_label(self._type)}`."
+                )
+            staged[key] = item
+        self._list.extend(staged.values())
+        self._dict.update(staged)
+
     def __contains__(self, value):
         try:
             if value in self._dict:
